@@ -186,8 +186,13 @@ class Verifier(Engine):
             env[n] = T(k, t)
             if k == "V":
                 st.assume(z3.Implies(is_ref(t), z3.And(V.rv(t) >= 0, V.rv(t) < h.alloc)))
-        if a.vararg or a.kwarg:
-            raise OutOfSubset("*args/**kwargs in signature of %s" % c.func)
+        if a.vararg:
+            raise OutOfSubset("*args in signature of %s" % c.func)
+        if a.kwarg:
+            # **kwargs: an arbitrary dict of extra keyword arguments
+            t = z3.Const("p_" + a.kwarg.arg, V)
+            env[a.kwarg.arg] = tV(t)
+            st.assume(z3.And(is_ref(t), V.rv(t) >= 0, V.rv(t) < h.alloc, sub(typ(V.rv(t)), cid("dict"))))
         for gname, gkind in c.ghost.items():
             env[gname] = T(gkind, z3.Const("g_" + gname, KIND_SORT[gkind]))
         for gname, gkind in c.opts.get("globals", {}).items():
